@@ -15,7 +15,7 @@ ASSUMPTIONS = ['observation channel: base_str, ansi_settings_at (texts and objec
                'in-place calls: assign_str, set_ansi_str, simplify, apply/remove/clear_formatting, *_matching, '
                'apply_formatting_for_match, += on AnsiString, and any call with inplace=True']
 MIN_EVAL = 500
-CASES = {'quick': 300, 'thorough': 7200}
+CASES = {'quick': 300, 'thorough': 3000}
 WEIGHTS = {'add': 8, 'iadd': 5, 'join': 3, 'replace': 5, 'getitem': 5, 'copy': 3, 'convert': 3, 'split': 3,
            'partition': 2, 'apply': 8, 'pad': 3}
 
